@@ -128,6 +128,16 @@ def explore(ctx):
         two_axes = (i % 5 == 4)
         base = add_marks(dsgen.base_master(rng, anchors=True, max_depth=1,
                                            classes=["identity", "shear", "general_small"]))
+        if i % 3 == 2:
+            # a pure composite with a plain (identity) 2x2, so that the one-entry difference below is always possible
+            simple = next((g["name"] for g in base["glyphs"] if g["contours"] and not g["components"] and g["name"] != "acutecomb"), None)
+            if simple:
+                base["glyphs"].insert(len(base["glyphs"]) - 1, {"name": "purecomp", "unicodes": [], "width": Fr(520), "contours": [],
+                                                                 "components": [(simple, (Fr(1), Fr(0), Fr(0), Fr(1), Fr(20), Fr(0)))],
+                                                                 "anchors": [("top", Fr(210), Fr(640))]})
+                if base.get("glyphOrder"):
+                    base["glyphOrder"] = [g["name"] for g in base["glyphs"]]
+                base["lib"]["public.openTypeCategories"]["purecomp"] = "base"
         multi = (i % 6 == 5) and not two_axes      # several variable fonts in one designspace, one built from a subset of the sources
         n = 4 if two_axes else (3 if multi else [3, 2][i % 2])
         masters = [base] + [dsgen.perturb(rng, base, k, amount=40) for k in range(1, n)]
@@ -138,7 +148,7 @@ def explore(ctx):
         pure = [g["name"] for g in base["glyphs"] if g["components"] and not g["contours"] and g["name"] != "acutecomb"]
         if i % 3 == 2 and pure:
             which = ["yy", "xx", "yx", "xy"][(i // 3) % 4]
-            gname = rng.choice(pure)
+            gname = "purecomp" if "purecomp" in pure else rng.choice(pure)
             g = next(x for x in masters[-1]["glyphs"] if x["name"] == gname)
             b, t = g["components"][0]
             t2 = {"yy": (t[0], t[1], t[2], t[3] * Fr(5, 4)), "xx": (t[0] * Fr(5, 4), t[1], t[2], t[3]),
